@@ -47,6 +47,31 @@ CHECKS = {
             "(and all 65536 u8 pairs / i16 values) evaluated in both and compared: same value and type or same exception type.",
             "64-bit gcc platform; signed native-int overflow and float->native conversions exercised but not judged "
             "(documented as undefined)", "4/C15"),
+    "C08": ("exploration",
+            "exhaustive all-pairs / all-chains / all-permutations law checking on types from a real build",
+            "~500 (Q) / ~1080 (T) types (48 atoms + every depth-1 construction) taken from a real bundled-typeshed build; "
+            "ALL ordered pairs for reflexivity, proper=>subtype, join upper bound, meet lower bound; ALL chains s<:t<:u for "
+            "transitivity on Any-free types; ALL item sequences <=3 (Q) / <=4 (T) over a 20-type core for union "
+            "simplification; every query answered under 3 (T: 4) cache states for cache independence.",
+            "nesting depth <= 1 only; bare `type` treated as Any-containing; join argument-order equivalence reported as a "
+            "statistic (the statement only demands an upper bound in either order)", "4/C08"),
+    "C16": ("model_checking",
+            "exhaustive frame segmentations + all client-behaviour sequences (depth-bounded) against the real daemon",
+            "Frames: every segmentation (2^(L-1)) of every stream of 1-3 frames with payload length 1-4, every EOF offset, "
+            "oversized headers, through the real IPCBase.read_bytes/frame_from_buffer. Daemon: ALL sequences of length <=2 (Q) "
+            "over a 116-symbol client-behaviour alphabet (close at every byte offset, garbage frames, unknown/ill-formed "
+            "commands, no-read clients) and length 3 over a reduced alphabet (T), each followed by a probe status/edit/check "
+            "compared with a cold build, against the real Server.serve loop over the real AF_UNIX socket.",
+            "Linux AF_UNIX only; one client at a time; fixture stubs on both sides of the probe comparison", "4/C16"),
+    "C17": ("exploration",
+            "exhaustive option x source x conflicting-pair enumeration and all small section sets vs the documented rule",
+            "149 introspected options x value domains x every source spelling (flag, inverse, ini, setup.cfg, pyproject, "
+            "per-module sections, overrides, inline) for equivalence of Options snapshots; all ordered pairs of 8 source "
+            "kinds for precedence; ALL ordered sets of <=3 (Q) / <=4 (T) per-module sections over 9 pattern shapes x all "
+            "module names to depth 3 (4) against a ~20-line transcription of the documented precedence; witness programs "
+            "through mypy.main.main for end-to-end effect.",
+            "which modules a pattern matches is taken from mypy itself (not judged); inline application in snapshot lanes "
+            "replicates build's three calls, the real State path is covered by the witness lane", "4/C17"),
 }
 
 NOT_BUILT = {}
